@@ -1,3 +1,4 @@
+import Percival.Proofs.GetoptTables
 import Percival.Proofs.GetoptExamples
 import Percival.Proofs.GetoptUnique
 /-!
@@ -149,5 +150,38 @@ example : (⟨b "--bar", true⟩ : Opt) ∈ exOpts ∧
     exOpts.Pairwise (fun x y => x.name ≠ y.name) ∧ EqFreeLong (b "--bar") := by
   refine ⟨by decide, by decide, by decide, ?_⟩
   intro _; decide
+
+/-! ## The function the executable runs
+
+`pmodel getopt` applies `Model.GetoptStep.stepOp` to every parsed line; `Driver/Getopt.lean` only parses and prints.
+The L1 part of a `parse` line is printed from `Spec.Getopt.parseArgv`, the L2 part from the model's states. -/
+
+open Percival.Model.GetoptStep Percival.Proofs.GetoptTables in
+/-- the option tables of `harness/h_getopt.c` are well-formed (they register without dying) -/
+theorem exec_tables_wf : ∀ lines ∈ tables, (tableOf lines).WF := tables_wf
+
+example : Model.GetoptStep.tables.length = 4 := rfl
+
+open Percival.Model.GetoptStep Percival.Proofs.GetoptTables in
+/-- **L1 = the model's own reports, from every prior state, and never a failure**: for each table of the harness,
+every NUL-free `argv`, every `k` and *every* state `s` left by earlier lines (a finished parse, or one abandoned
+after `k` reports in the middle of a packed group of another vector), a `parse` line answers with the reports of
+the grammar — which are exactly the reports the model of getopt.c makes (`evs.map (·.1)`), cut after `k` when the
+loop is abandoned — and the final `optind` of the grammar is the model's; `fail:oob`, `fail:abort`, `fail:fuel`
+are never printed. -/
+theorem exec_parse_follows_grammar (s : St) (t k : Nat) (argv : List Str) (lines : List Line)
+    (ht : tables[t]? = some lines) (hnul : ∀ a ∈ argv, NulFree a) :
+    ∃ evs sf, run lines argv s = .ok (evs, sf) ∧
+      (stepOp s (.parse t k argv)).2 =
+        (if k > 0 ∧ k ≤ evs.length then .parsed ((evs.map (·.1)).take k) true 0 ((evs.take k).map (·.2)) none
+         else .parsed (evs.map (·.1)) false sf.optind (evs.map (·.2)) (some sf)) := by
+  have hwf := tables_wf lines (List.mem_of_getElem? ht)
+  obtain ⟨evs, sf, h1, h2, h3⟩ := parse_follows_grammar lines argv s hwf hnul
+  refine ⟨evs, sf, h1, ?_⟩
+  simp only [stepOp, ht, h1, ← h2, ← h3]
+  split <;> rfl
+
+example : Model.GetoptStep.tables[0]? = some exLines ∧ (∀ a ∈ exArgv, NulFree a) :=
+  ⟨rfl, Proofs.Getopt.exArgv_nulFree⟩
 
 end Percival.C18
